@@ -14,29 +14,51 @@ Get(m, p) == IF p \in DOMAIN m THEN m[p] ELSE "Absent"
 Put(m, p, v) == [q \in (DOMAIN m) \cup {p} |-> IF q = p THEN v ELSE m[q]]
 NoPend == "none"
 
-EmptyFs(old) == [c |-> [p \in {"M"} |-> old], pend |-> [p \in {"M"} |-> NoPend]]
+\* fs.sz[p]: length in bytes where it matters (files left behind by an earlier interrupted run):
+\* writing n bytes at offset 0 of a file that is NOT truncated replaces it completely only when
+\* it was not longer than n.  -1 = unknown / irrelevant.
+GetSz(fs, p) == IF p \in DOMAIN fs.sz THEN fs.sz[p] ELSE -1
+EmptyFs(old) == [c |-> [p \in {"M"} |-> old], pend |-> [p \in {"M"} |-> NoPend], sz |-> [p \in {"M"} |-> -1]]
+\* a filesystem that already holds other files (leftovers of an earlier, interrupted operation):
+\* init is a sequence of <<role, content class>>
+RECURSIVE WithFiles(_, _)
+WithFiles(fs, init) == IF init = <<>> THEN fs
+                       ELSE WithFiles([c |-> Put(fs.c, Head(init)[1], Head(init)[2]),
+                                       pend |-> Put(fs.pend, Head(init)[1], NoPend),
+                                       sz |-> Put(fs.sz, Head(init)[1], Head(init)[3])], Tail(init))
 
 Apply(fs, op) ==
-    LET p == op.p IN
-    CASE op.kind = "open_trunc"  -> [c |-> Put(fs.c, p, "Empty"), pend |-> Put(fs.pend, p, NoPend)]
-      [] op.kind = "open_excl"   -> [c |-> Put(fs.c, p, "Empty"), pend |-> Put(fs.pend, p, NoPend)]
-      [] op.kind = "open_append" -> [c |-> Put(fs.c, p, IF Get(fs.c, p) = "Absent" THEN "Empty" ELSE Get(fs.c, p)),
-                                     pend |-> Put(fs.pend, p, NoPend)]
+    LET p == op.p
+        Set(c2, pend2) == [c |-> c2, pend |-> pend2, sz |-> fs.sz]
+    IN
+    CASE op.kind = "open_trunc"  -> [c |-> Put(fs.c, p, "Empty"), pend |-> Put(fs.pend, p, NoPend), sz |-> Put(fs.sz, p, 0)]
+      [] op.kind = "open_excl"   -> [c |-> Put(fs.c, p, "Empty"), pend |-> Put(fs.pend, p, NoPend), sz |-> Put(fs.sz, p, 0)]
+      [] op.kind = "open_append" -> Set(Put(fs.c, p, IF Get(fs.c, p) = "Absent" THEN "Empty" ELSE Get(fs.c, p)),
+                                        Put(fs.pend, p, NoPend))
+      [] op.kind = "open_create" -> [c |-> Put(fs.c, p, IF Get(fs.c, p) = "Absent" THEN "Empty" ELSE Get(fs.c, p)),
+                                     pend |-> Put(fs.pend, p, NoPend),
+                                     sz |-> Put(fs.sz, p, IF Get(fs.c, p) = "Absent" THEN 0 ELSE GetSz(fs, p))]
       [] op.kind = "open_rw"     -> fs
-      [] op.kind = "write"       -> [fs EXCEPT !.pend = Put(fs.pend, p,
-                                        IF Get(fs.pend, p) = NoPend /\ Get(fs.c, p) = "Empty" THEN op.d ELSE "Other")]
+      [] op.kind = "write"       ->
+            \* data written at offset 0 of a freshly opened file: it becomes the whole content iff the
+            \* file was empty or (known to be) not longer than the data
+            LET whole == Get(fs.pend, p) = NoPend /\
+                         (Get(fs.c, p) = "Empty" \/ (GetSz(fs, p) >= 0 /\ op.n >= 0 /\ GetSz(fs, p) <= op.n))
+            IN Set(fs.c, Put(fs.pend, p, IF whole THEN op.d ELSE "Other"))
       [] op.kind = "close"       -> IF Get(fs.pend, p) = NoPend THEN fs
-                                    ELSE [c |-> Put(fs.c, p, Get(fs.pend, p)), pend |-> Put(fs.pend, p, NoPend)]
-      [] op.kind = "remove"      -> [c |-> Put(fs.c, p, "Absent"), pend |-> Put(fs.pend, p, NoPend)]
+                                    ELSE Set(Put(fs.c, p, Get(fs.pend, p)), Put(fs.pend, p, NoPend))
+      [] op.kind = "remove"      -> Set(Put(fs.c, p, "Absent"), Put(fs.pend, p, NoPend))
       [] op.kind = "rename"      -> [c |-> Put(Put(fs.c, op.p2, Get(fs.c, p)), p, "Absent"),
-                                     pend |-> Put(Put(fs.pend, op.p2, NoPend), p, NoPend)]
-      [] op.kind = "copy"        -> [c |-> Put(fs.c, p, Get(fs.c, op.p2)), pend |-> Put(fs.pend, p, NoPend)]
-      [] op.kind = "truncate"    -> [c |-> Put(fs.c, p, "Other"), pend |-> fs.pend]
+                                     pend |-> Put(Put(fs.pend, op.p2, NoPend), p, NoPend),
+                                     sz |-> Put(fs.sz, op.p2, GetSz(fs, p))]
+      [] op.kind = "copy"        -> [c |-> Put(fs.c, p, Get(fs.c, op.p2)), pend |-> Put(fs.pend, p, NoPend),
+                                     sz |-> Put(fs.sz, p, GetSz(fs, op.p2))]
+      [] op.kind = "truncate"    -> Set(Put(fs.c, p, "Other"), fs.pend)
       [] OTHER -> fs               \* mkdir, chmod, utime ... do not change file contents
 
 \* a write that reached the disk only partly (k > 0 bytes flushed) / not at all
 Torn(fs, op, k) == [c |-> Put(fs.c, op.p, IF k > 0 THEN "Partial" ELSE Get(fs.c, op.p)),
-                    pend |-> Put(fs.pend, op.p, NoPend)]
+                    pend |-> Put(fs.pend, op.p, NoPend), sz |-> fs.sz]
 
 RECURSIVE Replay(_, _)
 Replay(fs, ops) == IF ops = <<>> THEN fs ELSE Replay(Apply(fs, Head(ops)), Tail(ops))
